@@ -66,4 +66,9 @@ META = {
   text="Partial by nature: crash-freedom of the two validator-tag converters is a theorem over a table that a go/ast translator rebuilds from the converters on every run (an unchecked dereference flips a flag and breaks the proof); loops are total model functions. The rest (libraries, visitors) is explored: generated IR with malformed tags through the real emitters and routers, with panics, dead workers and timeouts reported as violations.",
   note="Holds after fix 4ee7fb4 (nil checks in both converters).",
  ),
+ "C10": dict(
+  technique="Lean 4 proof (soundness of the validator model clause by clause: returns, link validator passes, body/form exclusion; `blocks` decided on regenerated call skeletons) + differential correspondence of real diagnostics on generated and perturbed projects",
+  text="Acceptance implies the well-linkedness clauses (returns error/(T,error), every binding references a parameter, every parameter referenced, every {name} of the method route bound, aliases name {names}, one body at most and never with form fields) as Lean theorems over the validator model for all methods; that an error diagnostic blocks all output is decided on call skeletons regenerated from pipeline.go and entrypoint.go. The model is tied to the real validators by exact equality of the diagnostic multisets on generated projects incl. all single/double perturbations, and the property's own definition is evaluated against the real verdict per route.",
+  note="Partial: completeness direction and the controller-prefix part are checked per case, not proved; open findings C10-F1, C10-F2.",
+ ),
 }
